@@ -13,6 +13,7 @@ Rust field types; `extra` = the pass-through properties of the stored publish.
 import Proofs.Lemmas.Encode
 import Proofs.Props.C04
 import Proofs.Lemmas.Router.Rp16_Emittable
+import Proofs.Lemmas.Router.Rp17_EmittableInv
 namespace C20
 open Encode Codec Admission
 
@@ -283,5 +284,47 @@ example : ∃ s, Router.Reachable ⟨10, 1024, 2, 10, .roundRobin⟩ s ∧
     Router.OpOk (.push 0 .pingreq) = true :=
   ⟨_, Router.Reachable.ofX [(.connect ⟨0, "a", true, false, 0, none⟩, []), (.push 0 .pingreq, []),
       (.event 0 .deviceData, []), (.consume, [])] rfl, by decide, by decide, rfl⟩
+
+/-! ### round 11 (PARTIAL): the connection-side hypotheses as a step invariant -/
+
+/-- C20 (stage 3, step form): from a reachable state, one step whose op is in range (`Router.OpOkC`: a pushed
+    packet is `PacketOk`, a CONNECT has `topic_alias_max < 65536`), taken while the packets waiting in the
+    links' incoming buffers are in range (`Router.IbufOk`), keeps for EVERY connection the connection-side
+    hypotheses of `sweep_forwards_emittable_partial` (`Router.ConnsOk`: broker aliases at most
+    `topic_alias_max < 65536`, subscription identifiers within the variable-byte range) — through sweeps
+    (new aliases), SUBSCRIBE (new subscription identifiers), UNSUBSCRIBE, CONNECT, takeover, disconnection,
+    wake-ups. Not yet lifted to runs: `IbufOk` itself is not shown to be an invariant (it needs the frame
+    pass over the link buffers, the same pass the buffer invariant needs). -/
+theorem connection_hypotheses_preserved_partial {cfg : Router.Config} {s s' : Router.RState} {ch : List Router.Choice}
+    {op : Router.Op} {out : Router.Out} (hr : Router.Reachable cfg s) (h : Router.ConnsOk s) (hib : Router.IbufOk s)
+    (hop : Router.OpOkC op = true) (hs : Router.step { s with oracle := ch } op = .ok (s', out)) :
+    Router.ConnsOk s' :=
+  Router.step_connsOk hr h hib hop hs
+
+/-- C20 (sweep, reachable form, PARTIAL): in a reachable state in which the connections satisfy `ConnsOk`, the
+    hypotheses of `sweep_forwards_emittable_partial` about the connection are discharged (`lastPkid <
+    MAX_INFLIGHT` is an invariant of reachable states, `AliasesOk` and the subscription-id range come from
+    `ConnsOk`); what remains is about the DATA: the publishes read are as the router stores them and fit a
+    frame (`StoredOk`, `FitsForward` — the commit-log-contents invariant, not proved), the pass-through
+    properties are well formed, the subscription's QoS is ≤ 2 -/
+theorem sweep_forwards_emittable_reachable_partial {cfg : Router.Config} {s : Router.RState} (hr : Router.Reachable cfg s)
+    (hok : Router.ConnsOk s) {id : Nat} {c : Router.Conn} (hc : Router.getConn s id = some c)
+    {req : Router.DataRequest} {pubs : List (Router.Pub × Option Router.Cursor)} {extra : Props}
+    (hsrc : ∀ pc ∈ pubs, Router.StoredOk pc.1 extra = true ∧ Router.FitsForward pc.1 extra) (hx : extraOk extra = true)
+    (hq : req.qos ≤ 2) :
+    ∀ n ∈ (Router.fdOut c req pubs).2,
+      Emittable (Router.versionOf c) extra n = true ∧ encodable (Router.versionOf c) (ofNotif extra n) = true := by
+  have hout := (Router.Inv1.reachable hr).out id c hc
+  have hco := hok id c hc
+  intro n hn
+  exact ⟨sweep_forwards_emittable_partial hsrc hx hq hout.2.1 hco.1 (hco.sid req.filter) n hn,
+    sweep_forwards_encodable_partial hsrc hx hq hout.2.1 hco.1 (hco.sid req.filter) n hn⟩
+
+/-- non-vacuity: the initial state satisfies `ConnsOk` and `IbufOk`, and a CONNECT with `topic_alias_max = 10`
+    is in range -/
+example : Router.ConnsOk (Router.init ⟨10, 1024, 2, 10, .roundRobin⟩) ∧ Router.IbufOk (Router.init ⟨10, 1024, 2, 10, .roundRobin⟩) ∧
+    Router.OpOkC (.connect ⟨0, "a", true, false, 10, none⟩) = true :=
+  ⟨fun j c h => by simp [Router.getConn, Router.init, Router.Slab.get?] at h,
+   fun l p hp => by simp [Router.getLink, Router.init] at hp, rfl⟩
 
 end C20
